@@ -147,6 +147,7 @@ def cases(tier, seed):
         out.append({"k": "layouts", "d": dt})
         out.append({"k": "mixedlists", "d": dt})
     out.append({"k": "empty"})
+    out.append({"k": "mixedcoefs"})
     return out
 
 
@@ -444,6 +445,33 @@ def run_case(case, R):
                     want_x = numpy.array([1, 0] if order == "typed first" else [0, 1]).astype(ref.dtype)
                     twice(R, "polynomial(list with polynomial)", f"polynomial([q0 as {src}, {py!r}] {order})", lambda: numpoly.polynomial(itemsp),
                           lambda got: compare_cols(got, {(0, 0): want_c, (1, 0): want_x}, ref.dtype, None), tags + ["polynomial entry"])
+    elif k == "mixedcoefs":
+        # the coefficient arrays of ONE construction call in two different dtypes, values at the edge of what the other
+        # dtype (or their common dtype) can hold: every coefficient is cast to the requested dtype on its own, as
+        # numpy.asarray(c).astype(dtype) casts it - not by way of a common dtype of all coefficients
+        R.state("mixedcoefs")
+        edge = {"i8": [2 ** 53 + 1, -(2 ** 62) - 1], "u8": [2 ** 53 + 1, 2 ** 63 + 5], "f8": [0.5, -3.0], "i4": [2 ** 24 + 1, -7], "f4": [0.5, 3.0],
+                "c16": [1 + 2j, 0.5j], "?": [True, False], "i2": [-300, 7], "u1": [200, 1]}
+        for d1, d2 in itertools.permutations(list(edge), 2):
+            c1, c2 = numpy.array(edge[d1], dtype=d1), numpy.array(edge[d2], dtype=d2)
+            rt = numpy.result_type(c1, c2)
+            # (with no dtype requested, polynomial_from_attributes takes the dtype of the FIRST coefficient - the library's
+            # documented choice, not numpy's promotion; nothing is demanded of that call form here)
+            for tgt in ("i8", "u8", "f8", "c16", "i4"):
+                if tgt is not None and numpy.dtype(tgt).kind != "c" and "c16" in (d1, d2):
+                    continue        # discarding an imaginary part is numpy's ComplexWarning territory
+                if tgt in ("i8", "u8", "i4") and ("f8" in (d1, d2) or "f4" in (d1, d2)) and False:
+                    continue
+                with numpy.errstate(all="ignore"):
+                    w1, w2 = c1.astype(tgt or rt), c2.astype(tgt or rt)
+                kw = {} if tgt is None else {"dtype": tgt}
+                tags = [f"d1={d1}", f"d2={d2}", f"tgt={tgt}"]
+                twice(R, "from_attributes", f"from_attributes coefficients {d1} and {d2}, dtype={tgt}",
+                      lambda: numpoly.polynomial_from_attributes([(0, 0), (1, 1)], [c1, c2], ("q0", "q1"), **kw),
+                      lambda got: compare_cols(got, {(0, 0): w1, (1, 1): w2}, tgt or rt, None), tags)
+                twice(R, "polynomial(dict)", f"polynomial(dict) coefficients {d1} and {d2}, dtype={tgt}",
+                      lambda: numpoly.polynomial({(0, 0): c1, (1, 1): c2}, names=("q0", "q1"), **kw),
+                      lambda got: compare_cols(got, {(0, 0): w1, (1, 1): w2}, tgt or rt, None), tags)
     elif k == "empty":
         R.state("empty")
         for dt in ("i8", "f4", "?"):
